@@ -178,8 +178,29 @@ func (c *FnCtx) oblige(st *State, kind, label string, goal string, props []strin
 		return
 	}
 	o := &Obligation{ID: c.oblID(kind, label), Kind: kind, Func: c.fi.Key, Props: props, Hyps: append(append([]string(nil), st.gfacts...), st.hyps...), Goal: goal,
-		Decls: &c.decls, Pos: c.eng.Fset.Position(c.curPos), Path: strings.Join(st.path, ";"), GoalText: goalText, Opaque: c.spec.Opaque}
+		Decls: &c.decls, Pos: c.eng.Fset.Position(c.curPos), Path: strings.Join(st.path, ";"), GoalText: goalText, Opaque: c.opaqueFor(kind, label)}
 	c.obls = append(c.obls, o)
+}
+
+// opaqueFor: the opaque spec functions of the function, minus those revealed for this obligation's label.
+func (c *FnCtx) opaqueFor(kind, label string) []string {
+	if len(c.spec.OpaqueExc) == 0 {
+		return c.spec.Opaque
+	}
+	id := "." + kind + "." + label + "."
+	var out []string
+	for _, f := range c.spec.Opaque {
+		revealed := false
+		for _, l := range c.spec.OpaqueExc[f] {
+			if strings.Contains(id, "."+l+".") {
+				revealed = true
+			}
+		}
+		if !revealed {
+			out = append(out, f)
+		}
+	}
+	return out
 }
 
 func (c *FnCtx) oblID(kind, label string) string {
